@@ -5,8 +5,8 @@
 EXTENDS TeakDecode, Json, IOUtils, TLC
 
 Log == ndJsonDeserialize(IOEnv.TRACE)
-VARIABLE l
-Rec == Log[l]
+VARIABLE vL
+Rec == Log[vL]
 
 DecOk(d, i, w) ==
     /\ d.out = "ok"
@@ -30,9 +30,9 @@ RecOk(r) ==
     \* an undefined word is never renderable
     /\ i = 0 => r.err = 1
 
-TraceInit == l = 1
-TraceNext == l <= Len(Log) /\ RecOk(Rec) /\ l' = l + 1
-TraceSpec == TraceInit /\ [][TraceNext]_l
+TraceInit == vL = 1
+TraceNext == vL <= Len(Log) /\ RecOk(Rec) /\ vL' = vL + 1
+TraceSpec == TraceInit /\ [][TraceNext]_vL
 TraceAccepted ==
     /\ PrintT(<<"TRACE_MATCHED", TLCGet("stats").diameter - 1, Len(Log)>>)
     /\ TLCGet("stats").diameter - 1 = Len(Log)
